@@ -613,6 +613,15 @@ func genQuery(r *rand.Rand, w Window, o GenOpts) string {
 	case "agg":
 		return g.aggOf(d)
 	case "bin":
+		if r.Intn(6) == 0 {
+			// a filtering comparison whose "one" side has several series in a match group: whether the
+			// step is ambiguous must not depend on which of them passes the comparison, or comes first
+			lhs := pick(r, []string{"sum by (a) (foo)", "min by (a) (bar)", "max by (a, b) (foo)", `foo{b="1",c="p"}`, "sum by (a) (last_over_time(bar[1m]))"})
+			rhs := pick(r, []string{"foo", "bar", `bar{c=~"p|q"}`, `foo{b!=""}`, "foo offset 15s"})
+			on := pick(r, []string{"a", "a", "a, b", "b"})
+			gl := pick(r, []string{"", "", " group_left", " group_left ()"})
+			return fmt.Sprintf("(%s) %s on (%s)%s (%s)", lhs, pick(r, []string{">", "<", ">=", "<=", "==", "!="}), on, gl, rhs)
+		}
 		return g.binary(d)
 	case "func":
 		return g.funcOf(d)
